@@ -747,7 +747,13 @@ func (c *coll) runActions(txn *column.Txn, r column.Row, acts []string) (string,
 					outs = append(outs, f[1]+"=~")
 				}
 			} else if containsStr(c.indexes, f[1]) {
-				if r.Bool(f[1]) {
+				in := false
+				if c.apiVariant()%2 == 0 {
+					in = r.Bool(f[1])
+				} else if v, ok := r.Any(f[1]); ok { // the untyped reader of an index: its bit
+					in, _ = v.(bool)
+				}
+				if in {
 					outs = append(outs, f[1]+"=1")
 				} else {
 					outs = append(outs, f[1]+"=0")
@@ -1307,7 +1313,13 @@ func (c *coll) selectLine(txn *column.Txn, rest []string) string {
 			cur := txn.Index()
 			txn.QueryAt(cur, func(r column.Row) error {
 				if isIdx {
-					if r.Bool(action[1]) {
+					in := false
+					if c.apiVariant()%2 == 0 {
+						in = r.Bool(action[1])
+					} else if v, ok := r.Any(action[1]); ok {
+						in, _ = v.(bool)
+					}
+					if in {
 						out = append(out, fmt.Sprintf("%d:01", idx))
 					} else {
 						out = append(out, fmt.Sprintf("%d:~", idx))
